@@ -9,6 +9,7 @@ ndim < 256, payload = 8·∏dims bytes, years 1..9999 and valid dates, limit not
 encoding of `None`), unique keys per dict, the constructor's date rules, cell values not str/date.
 -/
 import Bermuda.Lemmas.CodecPy
+import Bermuda.Lemmas.CodecTriangle
 namespace Bermuda.Properties.C05
 open Bermuda Bermuda.Codec
 
@@ -91,6 +92,43 @@ theorem decode_encodePy (t : RawTriangle) (h : WF t) (hc : coherent t = true) :
     decode (encodePy t) = .ok t := by
   rw [encodePy_eq_encode t hc]; exact decode_encode t h
 
+/-- **the writer as written on EVERY triangle of the domain** (no `coherent`): what comes back is `firstRepr t` —
+every cell with its own class, dates and values, and with the metadata representation of the FIRST cell of its run
+of Python-equal metadata (`1` vs `1.0` vs `True`, `0.0` vs `-0.0`, another insertion order of a detail dict are one
+slice for the library and share one metadata record). This characterises the region the words "writing any
+triangle" do not hold for literally; it is the read-back oracle of the harness stream `md-repr`. -/
+theorem decode_encodePy_firstRepr (t : RawTriangle) (h : WF t) : decode (encodePy t) = .ok (firstRepr t) :=
+  Codec.decode_encodePy_firstRepr t h
+
+/-- on coherent triangles `firstRepr` is the identity (so `decode_encodePy` is an instance of the theorem above) -/
+theorem firstRepr_of_coherent (t : RawTriangle) (hc : coherent t = true) : firstRepr t = t :=
+  Codec.firstRepr_of_coherent t hc
+
+/-! ### 2b. … up to and including the final `Triangle(cells)` of `_read_triangle`
+
+`Fn.fromBinary s = (decode s).bind fun raw => (raw.mapM cellOfRaw).bind Triangle.ofCells` (Model/AllOps3.lean) is the
+whole of `Triangle.from_binary` on the shared numeric cell type: the decoded records are seen as cells (`cellOfRaw`:
+exact value of every IEEE double, UTF-8 decoded) and handed to the constructor (class check + stable sort, C01).
+`cells` is that view of the triangle that was written; `Canonical cells` (sorted, one cell class, constructor date
+rules) is what every `Triangle` object satisfies (`C01.ofCells_canonical`). -/
+
+/-- **C05 for the function `from_binary` as a whole**: the constructor at the end neither raises nor reorders -/
+theorem fromBinary_encode (t : RawTriangle) (h : WF t) {cells : List Cell}
+    (hv : t.mapM Fn.cellOfRaw = .ok cells) (hc : Properties.C01.Canonical cells) :
+    Fn.fromBinary (encode t) = .ok cells := by
+  unfold Fn.fromBinary
+  rw [decode_encode t h]
+  simp only [bind, Except.bind, hv, Properties.C01.ofCells_idem hc]
+
+/-- the same for the writer as written, on every triangle of the domain: `from_binary(to_binary(t))` is the view
+of `firstRepr t` -/
+theorem fromBinary_encodePy (t : RawTriangle) (h : WF t) {cells : List Cell}
+    (hv : (firstRepr t).mapM Fn.cellOfRaw = .ok cells) (hc : Properties.C01.Canonical cells) :
+    Fn.fromBinary (encodePy t) = .ok cells := by
+  unfold Fn.fromBinary
+  rw [decode_encodePy_firstRepr t h]
+  simp only [bind, Except.bind, hv, Properties.C01.ofCells_idem hc]
+
 /-- a sufficient condition for `WF` that mentions no sorting: all cells fine and at most 16383
 key occurrences -/
 theorem wf_of_cells (t : RawTriangle) (hc : t.all cellOk = true) (hk : 2 * (allKeys t).length < 32768) :
@@ -120,6 +158,18 @@ theorem roundtrip_compressed (gzip : Bytes → Bytes) (gunzip : Bytes → Except
   · simp [decode_encode t h]
   · simp [hg, decode_encode t h]
 
+/-- the file as `to_binary` really writes it (`_write_triangle` decides on a metadata record with Python's `!=`) -/
+def encodeFilePy (gzip : Bytes → Bytes) (compress : Bool) (t : RawTriangle) : Bytes :=
+  if compress then gzip (encodePy t) else encodePy t
+
+/-- `roundtrip_compressed` for the writer as written (coherent triangles) -/
+theorem roundtrip_compressed_py (gzip : Bytes → Bytes) (gunzip : Bytes → Except Err Bytes)
+    (hg : ∀ b, gunzip (gzip b) = .ok b) (t : RawTriangle) (h : WF t) (hc : coherent t = true)
+    (ext : Ext) (flag : Option Bool) (c : Bool) (hi : inferCompress ext flag = .ok c) :
+    decodeFile gunzip ext flag (encodeFilePy gzip c t) = .ok t := by
+  have := roundtrip_compressed gzip gunzip hg t h ext flag c hi
+  simpa [encodeFilePy, encodeFile, encodePy_eq_encode t hc] using this
+
 /-- `binary_to_triangle`'s decision table: an explicit `True` wins; `None` AND an explicit `False`
 are re-inferred from the extension; any other extension is refused -/
 theorem inferCompress_spec :
@@ -138,5 +188,42 @@ theorem inferCompress_spec :
 string, a `None` string, a 2-d array and a limit -/
 
 example : decode (encode exTriangle) = .ok exTriangle := decode_encode _ Codec.exTriangle_wf
+
+/-- the witness is coherent, so the theorem about the writer as written applies to it too -/
+theorem exTriangle_coherent : coherent exTriangle = true := by decide +kernel
+
+example : decode (encodePy exTriangle) = .ok exTriangle :=
+  decode_encodePy _ Codec.exTriangle_wf exTriangle_coherent
+
+/-- a NON-coherent triangle: two cells of one slice whose details are `{"a": 1}` and `{"a": 1.0}` -/
+def exNonCoherent : RawTriangle :=
+  [ { kind := .cumulative, ps := ⟨2020, 1, 1⟩, pe := ⟨2020, 12, 31⟩, ev := ⟨2020, 12, 31⟩, prev := none,
+      md := { riskBasis := some [65], country := none, currency := none, reinsuranceBasis := none,
+              lossDefinition := none, limit := none, details := [([97], .int 1)], lossDetails := [] },
+      values := [([112], .int 5)] },
+    { kind := .cumulative, ps := ⟨2021, 1, 1⟩, pe := ⟨2021, 12, 31⟩, ev := ⟨2021, 12, 31⟩, prev := none,
+      md := { riskBasis := some [65], country := none, currency := none, reinsuranceBasis := none,
+              lossDefinition := none, limit := none, details := [([97], .flt [0, 0, 0, 0, 0, 0, 240, 63])],
+              lossDetails := [] },
+      values := [([112], .int 6)] } ]
+
+/-- it is in the domain, not coherent, and reads back with `1` in BOTH cells — not as written -/
+example : decode (encodePy exNonCoherent) = .ok (firstRepr exNonCoherent) ∧ coherent exNonCoherent = false ∧
+    firstRepr exNonCoherent ≠ exNonCoherent ∧
+    (firstRepr exNonCoherent).map (·.md.details) = [[([97], .int 1)], [([97], .int 1)]] :=
+  ⟨decode_encodePy_firstRepr _ (wf_of_cells _ (by decide +kernel) (by decide +kernel)), by decide +kernel,
+   by decide +kernel, by decide +kernel⟩
+
+/-- non-vacuity of `fromBinary_encodePy`: the numeric view of what comes back for `exNonCoherent` — both cells with
+`details = {"a": 1}` — is a canonical triangle, and it IS what `from_binary(to_binary(t))` returns -/
+def exNonCoherentBack : List Cell :=
+  [ { kind := .cumulative, ps := ⟨2020, 1, 1⟩, pe := ⟨2020, 12, 31⟩, ev := ⟨2020, 12, 31⟩, prev := none,
+      md := { riskBasis := some "A", details := [("a", .num 1)] }, values := [("p", .int 5)] },
+    { kind := .cumulative, ps := ⟨2021, 1, 1⟩, pe := ⟨2021, 12, 31⟩, ev := ⟨2021, 12, 31⟩, prev := none,
+      md := { riskBasis := some "A", details := [("a", .num 1)] }, values := [("p", .int 6)] } ]
+
+example : Fn.fromBinary (encodePy exNonCoherent) = .ok exNonCoherentBack :=
+  fromBinary_encodePy _ (wf_of_cells _ (by decide +kernel) (by decide +kernel)) (of_okIs (by decide +kernel))
+    ⟨by decide +kernel, by decide +kernel, by decide +kernel⟩
 
 end Bermuda.Properties.C05
